@@ -149,6 +149,7 @@ def run_case(c, R):
     fr = make_prior(stg, g, c['prior'], c['sub'])
     start = fr.data.astype(np.float64).copy()
     rets = []
+    kept_returns = []
     changed = False
     # a frame derived from this one BEFORE the injections must be left alone by them ("nothing else" includes other frames)
     sib = None
@@ -192,6 +193,10 @@ def run_case(c, R):
         # the returned array is the caller's: accumulating into it (total = first; total += next) must not reach anything the
         # library hands out later
         ret += 3.25
+        kept_returns.append((ret, ret.copy()))
+    # an array that was returned belongs to the caller from then on: later injections into the same frame leave it alone
+    for j_, (arr_, cp_) in enumerate(kept_returns):
+        R.check(np.array_equal(arr_, cp_), 'returned-array-changed-by-a-later-injection', call=j_, calls=len(kept_returns))
     # two injections that miss the band altogether, the caller writing into the first result in between
     if c['_idx'] % 3 == 0:
         R.bucket('out-of-band-twice')
